@@ -55,9 +55,10 @@ def build(P):
                         returns=TEnum(idx.lookup("evaluation.matching.object_matching:MatchingLabelPolicy")),
                         ensures=E("value_parses_to_its_member", "all([implies(name == m.value, result is m) for m in MatchingLabelPolicy])",
                                   "lower_case_accepted", "all([implies(name == m.value.lower(), result is m) for m in MatchingLabelPolicy])",
+                                  "printed_form_parses_back", "all([implies(name == str(m), result is m) for m in MatchingLabelPolicy])",
                                   "result_is_a_member", "isinstance(result, MatchingLabelPolicy)",
                                   "non_member_never_returns", "any([name.upper() == m.value for m in MatchingLabelPolicy])"),
-                        raises={"AssertionError": "not any([name.upper() == m.value for m in MatchingLabelPolicy])"}))
+                        raises={"AssertionError": "not any([name.upper() == m.value or name == str(m) for m in MatchingLabelPolicy])"}))
     # set_task_lists: the list form - one member per member name, in the order of the names (other strings are skipped)
     from pyvc.lemmas import count_fn, add_count_lemmas
     add_count_lemmas(P)
